@@ -158,16 +158,18 @@ class ExpandedTraceback:
         # A SyntaxError has to be handled differently to actually get its output:
         # https://docs.python.org/3/library/traceback.html#traceback.print_exception
         if isinstance(self.exception, SyntaxError):
-            offset = self.exception.offset
+            # CPython gives no position for some errors (e.g., null bytes in the source)
+            lineno = self.exception.lineno if self.exception.lineno is not None else 1
+            offset = self.exception.offset if self.exception.offset is not None else 1
             if IS_AT_LEAST_PYTHON_310 and not IS_SKULPT:
                 end_lineno = self.exception.end_lineno
                 end_offset = offset if self.exception.end_offset not in {None, 0} else offset
                 end_offset = offset + 1 if offset == end_offset or end_offset == -1 else end_offset
             else:
-                end_lineno = self.exception.lineno
+                end_lineno = lineno
                 end_offset = 1 + offset
             fake_frame = FakeFrame("<module>", self.exception.filename,
-                                   self.exception.lineno, None, offset-1, end_lineno, end_offset-1)
+                                   lineno, None, offset-1, end_lineno, end_offset-1)
             self._fix_frame_line(fake_frame)
             # Skulpt compatibility hack, to prevent duplicate tracebacks
             if not frames or fake_frame != frames[-1]:
